@@ -18,6 +18,8 @@ pub enum K {
 	WsClose(u16, bool),
 	WsGatedCallThenDrop(u16),
 	WsHalfUpgrade,
+	/// (ping enabled) a session with a call in flight whose peer stops reading/answering: the server gives it up for inactivity
+	WsSilentWithCall(u16),
 	MalformedUpgrade(u8),
 	RawHttp,
 	/// n cycles of one open/exit path
@@ -29,6 +31,10 @@ pub struct C11Case {
 	pub limit: u32,
 	pub mode: u8,
 	pub steps: Vec<K>,
+	#[serde(default)]
+	pub ping: bool,
+	#[serde(default)]
+	pub via_set_http_middleware: bool,
 }
 
 pub struct Connections;
@@ -46,11 +52,13 @@ struct W11 {
 	http: Vec<HttpInFlight>,
 	ws: Vec<WsPeer>,
 	tokens: u32,
+	silent: Vec<WsPeer>,
 	fails: Vec<(String, String)>,
 	reached_limit: u32,
 	abnormal_exits: u32,
 	ws_enabled: bool,
 	http_enabled: bool,
+	ping: bool,
 }
 
 impl W11 {
@@ -211,6 +219,28 @@ impl W11 {
 				settle().await;
 				self.fix.ctx.gates.release(&token);
 			}
+			K::WsSilentWithCall(p) => {
+				// NOT generated: the server measures inactivity with std::time::Instant (the real clock), so under the
+				// paused tokio clock a silent peer is never given up; kept for replaying hand-written cases only
+				if self.ws.is_empty() || !self.ping {
+					return;
+				}
+				let mut ws = self.ws.remove(pick_idx(*p, self.ws.len()));
+				self.tokens += 1;
+				let token = format!("q{}", self.tokens);
+				let _ = ws.send_text(&format!(r#"{{"jsonrpc":"2.0","id":1,"method":"gated_async","params":["{token}"]}}"#)).await;
+				settle().await;
+				// the peer stops reading (no pongs any more) but keeps its end open; the barrier below advances the
+				// clock far beyond the inactivity limit, so the server closes the session on its own
+				ws.read_gate.pause();
+				settle().await;
+				settle().await;
+				self.abnormal_exits += 1;
+				self.fix.ctx.gates.release(&token);
+				settle().await;
+				// keep the silent peer around until the end of the history (its TCP side stays open)
+				self.silent.push(ws);
+			}
 			K::WsHalfUpgrade => {
 				let (mut io, _task) = self.fix.raw_conn(4096);
 				let _ = io.write_all(UPGRADE_OK.as_bytes()).await;
@@ -308,13 +338,15 @@ impl SubCheck for Connections {
 			1 => Just(K::RawHttp),
 			1 => (0u8..6, 2u8..rep).prop_map(|(p, n)| K::Repeat(p, n)),
 		];
-		(0u32..4, prop_oneof![6 => Just(0u8), 1 => Just(1u8), 1 => Just(2u8)], proptest::collection::vec(k, 1..max)).prop_map(|(limit, mode, steps)| C11Case { limit, mode, steps }).boxed()
+		(0u32..4, prop_oneof![6 => Just(0u8), 1 => Just(1u8), 1 => Just(2u8)], proptest::collection::vec(k, 1..max), proptest::bool::weighted(0.3), proptest::bool::weighted(0.3))
+			.prop_map(|(limit, mode, steps, ping, via_set_http_middleware)| C11Case { limit, mode, steps, ping, via_set_http_middleware })
+			.boxed()
 	}
 	fn run(&self, case: &C11Case, obs: &mut Obs) {
 		let rt = rt();
 		rt.block_on(async {
-			let fix = Fixture::new(Cfg { max_connections: case.limit, mode: case.mode, ..Cfg::default() });
-			let mut w = W11 { fix, limit: case.limit as usize, http: vec![], ws: vec![], tokens: 0, fails: vec![], reached_limit: 0, abnormal_exits: 0, ws_enabled: case.mode != 1, http_enabled: case.mode != 2 };
+			let fix = Fixture::new(Cfg { max_connections: case.limit, mode: case.mode, ping: if case.ping { Some((600, 1500)) } else { None }, via_set_http_middleware: case.via_set_http_middleware, ..Cfg::default() });
+			let mut w = W11 { fix, limit: case.limit as usize, http: vec![], ws: vec![], tokens: 0, silent: vec![], ping: case.ping, fails: vec![], reached_limit: 0, abnormal_exits: 0, ws_enabled: case.mode != 1, http_enabled: case.mode != 2 };
 			for (i, k) in case.steps.iter().enumerate() {
 				w.step(k).await;
 				if w.fails.is_empty() {
@@ -336,6 +368,15 @@ impl SubCheck for Connections {
 			if w.abnormal_exits > 0 {
 				obs.class("with-abnormal-exit");
 			}
+			if case.ping {
+				obs.class("ping-enabled");
+			}
+			if case.via_set_http_middleware {
+				obs.class("service-built-through-set_http_middleware");
+			}
+			if !w.silent.is_empty() {
+				obs.class("session-given-up-for-inactivity");
+			}
 			if case.steps.iter().any(|k| matches!(k, K::Repeat(..))) {
 				obs.class("with-repetition");
 			}
@@ -353,7 +394,7 @@ pub fn long_cycles(tier: Tier) -> Vec<C11Case> {
 	let mut v = vec![];
 	for path in 0..6u8 {
 		for limit in 1..=3u32 {
-			v.push(C11Case { limit, mode: 0, steps: vec![K::Repeat(path, n), K::WsOpen, K::HttpGated, K::WsOpen, K::HttpQuick] });
+			v.push(C11Case { limit, mode: 0, steps: vec![K::Repeat(path, n), K::WsOpen, K::HttpGated, K::WsOpen, K::HttpQuick], ping: false, via_set_http_middleware: path % 2 == 1 });
 		}
 	}
 	v
